@@ -69,6 +69,8 @@ type InstCfg struct {
 	// when the instance's Watch call has returned.
 	NoMetrics bool `json:"no_metrics,omitempty"`
 	NoLogger  bool `json:"no_logger,omitempty"`
+	// CorrID: the context given to Start carries a "correlation_id" value (a documented logging feature)
+	CorrID bool `json:"corr_id,omitempty"`
 }
 
 type StoreCfg struct {
